@@ -313,7 +313,7 @@ def id_value_to_literal(value: Any) -> ConstValueNode | None:
         return (
             IntValueNode(value=value)
             if _re_integer_string.match(value)
-            else StringValueNode(value=value, block=False)
+            else default_scalar_value_to_literal(value)
         )
     if isinstance(value, (int, float)) and not isinstance(value, bool):
         return IntValueNode(value=coerce_id_from_number(value))
